@@ -216,8 +216,26 @@ def check(P, R):
                      f'the containment test compares transformed strings (`{short(t.func.value)}` against `{short(t.args[0])}`) instead of the normalised path and root '
                      f'themselves: e.g. case folding lets a sibling or ancestor that differs only in letter case pass on a case-sensitive file system',
                      why='the file opened must lie inside the root as the file system sees it', key_extra='transformed')
-    R.require(guards, 'static_file has no `name.startswith(root)` test')
     sinks = [c for fn, c in sinks_all if fn is f]
+    if not guards:
+        # other spellings of "the normalised name lies under the normalised root" a maintainer might use; anything else guarding the open() - a hand-written
+        # walk over the segments, a regex, a blacklist of `..` - is not a containment test of what the file system will open
+        other_ok = False
+        for n in g.nodes:
+            if n.kind != 'test':
+                continue
+            for x in ast.walk(n.ast):
+                if isinstance(x, ast.Call) and (call_attr(x) in ('is_relative_to',) or dotted(x.func) in ('os.path.commonpath', 'os_path.commonpath', 'commonpath')):
+                    other_ok = True
+        if other_ok:
+            R.undecided('C16.b', f, f.node, 'containment test', 'commonpath / is_relative_to form: no recogniser for its operands')
+            return
+        for c in sinks:
+            R.ob('C16.b', f, c, False, text=f'{short(c)}: dominated by a containment test of the normalised path', detail=
+                 'no test of the form <normalised name>.startswith(<normalised root + separator>) (or an equivalent prefix / commonpath / is_relative_to test) guards '
+                 'the open(): whatever replaces it (segment counting, pattern matching) does not see what the operating system resolves - repeated separators, '
+                 'symbolic spellings - and lets `sub//../../x` out of the root', why='the file opened lies inside the root directory', key_extra='no-guard')
+        return
     name_var = None
     from ..paths import Explorer
     X = Explorer(f, P)
